@@ -23,10 +23,12 @@ pub struct WireType {
     pub equal: Box<dyn Fn(&[u8], &[u8]) -> anyhow::Result<bool> + Send + Sync>,
     /// Encodings of well-formed sample values.
     pub samples: Vec<Vec<u8>>,
+    /// For the i-th (typed) sample value `x`: whether `decode(encode(x)) == x`.
+    pub sample_lossless: Box<dyn Fn(usize) -> anyhow::Result<bool> + Send + Sync>,
 }
 
 /// Builds a `WireType` for any `ProtoFmt` type (also used by the harness for public types).
-pub fn wire_type<T: ProtoFmt + PartialEq + 'static>(name: &'static str, samples: Vec<T>) -> WireType {
+pub fn wire_type<T: ProtoFmt + PartialEq + Send + Sync + 'static>(name: &'static str, samples: Vec<T>) -> WireType {
     use zksync_protobuf::build::prost_reflect::ReflectMessage as _;
     WireType {
         name,
@@ -39,6 +41,7 @@ pub fn wire_type<T: ProtoFmt + PartialEq + 'static>(name: &'static str, samples:
         }),
         equal: Box::new(|a, b| Ok(zksync_protobuf::decode::<T>(a)? == zksync_protobuf::decode::<T>(b)?)),
         samples: samples.iter().map(zksync_protobuf::encode).collect(),
+        sample_lossless: Box::new(move |i| Ok(zksync_protobuf::decode::<T>(&zksync_protobuf::encode(&samples[i]))? == samples[i])),
     }
 }
 
